@@ -139,9 +139,16 @@ class C13:
             nodes.append(node)
         # buildpack directories that are symlinks to directories outside the workspace (never a directory that holds nested
         # buildpacks: the walk does not descend through links)
+        # directory names a build tool might treat specially (at most one of each per case)
+        special = ["target", "tgt/target/arm64", "node_modules/bp", "build/out"]      # (hidden directories are skipped by the walk: documented behaviour of the `ignore` crate)
+        rng.shuffle(special)
+        for nd in nodes:
+            if "parent" not in nd and special and rng.random() < 0.12:
+                nd["dirname"] = special.pop()
+                nd["no_link"] = True          # (a linked directory would hide what is nested below it from the walk)
         parents = {nd["parent"] for nd in nodes if "parent" in nd}
         for k, nd in enumerate(nodes):
-            if k not in parents and "parent" not in nd and rng.random() < 0.15:
+            if k not in parents and "parent" not in nd and not nd.get("no_link") and rng.random() < 0.15:
                 nd["link"] = True
         return {"nodes": nodes, "root_lists": [[idperm[r] if r < n else r for r in rl] for rl in root_lists]}
 
